@@ -11,7 +11,7 @@
 
 use crate::common::*;
 use assets_manager::{AnyCache, AssetCache, BoxedError, Compound, SharedString};
-use crate::types::MemSource;
+use crate::types::{ledger, MemSource, Uid};
 use std::sync::{atomic::{AtomicUsize, Ordering}, Arc, Barrier};
 
 #[derive(Default)]
@@ -22,14 +22,14 @@ static ARRIVED: AtomicUsize = AtomicUsize::new(0);
 static SERIAL: AtomicUsize = AtomicUsize::new(0);
 
 /// Loader that waits (bounded) until all racers of the round are inside a loader.
-pub struct B(pub usize);
+pub struct B(pub usize, pub Uid);
 impl Compound for B {
     fn load(_cache: AnyCache, _id: &SharedString) -> Result<Self, BoxedError> {
         let want = RACERS.load(Ordering::Acquire);
         ARRIVED.fetch_add(1, Ordering::AcqRel);
         let t0 = std::time::Instant::now();
         while ARRIVED.load(Ordering::Acquire) < want && t0.elapsed().as_millis() < 20 { std::hint::spin_loop(); }
-        Ok(B(SERIAL.fetch_add(1, Ordering::Relaxed)))
+        Ok(B(SERIAL.fetch_add(1, Ordering::Relaxed), Uid::new()))
     }
 }
 
@@ -59,6 +59,7 @@ impl Engine for ConcEngine {
                         let id = format!("k{round}");
                         RACERS.store(threads, Ordering::Release);
                         ARRIVED.store(0, Ordering::Release);
+                        let (c0, d0) = { let l = ledger(); (l.created.len(), l.dropped.len()) };
                         let bar = Barrier::new(threads);
                         let ptrs: Vec<(usize, usize)> = std::thread::scope(|s| {
                             let hs: Vec<_> = (0..threads).map(|t| {
@@ -68,7 +69,7 @@ impl Engine for ConcEngine {
                                     let c = cache.as_any_cache();
                                     // racers mix `load` and `get_or_insert` on the same key
                                     let h = if mix == 2 && t % 2 == 1 {
-                                        if via_any { c.get_or_insert::<B>(id, B(1_000_000 + t)) } else { cache.get_or_insert::<B>(id, B(1_000_000 + t)) }
+                                        if via_any { c.get_or_insert::<B>(id, B(1_000_000 + t, Uid::new())) } else { cache.get_or_insert::<B>(id, B(1_000_000 + t, Uid::new())) }
                                     } else if via_any { c.load::<B>(id).unwrap() } else { cache.load::<B>(id).unwrap() };
                                     (h as *const _ as usize, h.read().0)
                                 })
@@ -83,6 +84,9 @@ impl Engine for ConcEngine {
                             other => bad.push(format!("round {round}: stored entry {:?} is not the racers' {:?}", other.map(|h| (h as *const _ as usize, h.read().0)), first)),
                         }
                         if !cache.contains::<B>(&id) { bad.push(format!("round {round}: contains is false after the race")); }
+                        // C13: every racer built a value; exactly one is stored, every other one was dropped, once
+                        let (c1, d1) = { let l = ledger(); (l.created.len(), l.dropped.len()) };
+                        if (c1 - c0) < 1 || (c1 - c0) - (d1 - d0) != 1 { bad.push(format!("round {round}: {} values created by the racers, {} dropped, exactly one must survive", c1 - c0, d1 - d0)); }
                         // unrelated insertions (map growth inside the shards), then re-read every earlier handle
                         if round % 16 == 15 {
                             for j in 0..2000 { cache.get_or_insert::<u64>(&format!("fill{round}-{j}"), j as u64); }
